@@ -37,7 +37,7 @@ ASSUMPTIONS = [
 ]
 REQUIRED_CELLS = {'quick': ['op:write', 'op:total', 'op:T', 'op:P', 'op:phase', 'op:phases', 'op:link', 'op:unlink',
                             'op:copy_like', 'op:reset_thermo', 'op:proxy', 'op:flow_proxy', 'op:dim_error',
-                            'op:read_key', 'op:get_property', 'op:assign', 'assign:vol-different-conditions', 'write:view=mass', 'write:view=vol', 'write:via=sub',
+                            'op:read_key', 'op:get_property', 'op:assign', 'op:reset_flow', 'reset_flow:kind=S', 'reset_flow:kind=M', 'reset_flow:dim=vol', 'assign:vol-different-conditions', 'write:view=mass', 'write:view=vol', 'write:via=sub',
                             'phases:S->M', 'phases:M->M', 'phases:M->S', 'link:full', 'link:partial'],
                   'thorough': []}
 
@@ -72,6 +72,9 @@ def _listed_tags():
 
 
 LISTED = _listed_tags()
+
+
+DERIVED = ('H', None, 'C', 'rho', 'S', 'Cn', 'Hvap', 'V')     # pure reads that go through Stream._get_property / mixture
 
 
 def arr(x):
@@ -248,8 +251,14 @@ class Run:
 
     def invariant(self, unit):
         ctx = self.ctx
+        # another cached mixture property is read first, so that the F_vol / total-flow clauses below meet the
+        # property cache in the state a process model leaves it in (write a flow, read H, then read F_vol)
+        derived = DERIVED[M.ALL_UNITS.index(unit) % len(DERIVED)]
         for name, real, sm in list(self.live):
             pk = sm.pk
+            if derived:
+                ctx.call('read.derived', getattr, real, derived, region=f'kind={sm.kind},name={derived}')
+                ctx.cell('derived:' + derived)
             if sm.kind == 'S':
                 if type(real) is not tmo.Stream:
                     ctx.fail('sync.class|kind=S|mismatch', f'{name} is {type(real).__name__} after {sm.last}')
@@ -951,6 +960,95 @@ class Run:
         if not same_cond and view == 'vol': ctx.cell('assign:vol-different-conditions')
         self.hist.append(['assign', kind, view, form, om.kind, src_via])
 
+    def op_reset_flow(self, step):
+        """reset_flow: everything not named becomes zero, the named flows read back in the given unit at the NEW phase(s)"""
+        ch, ctx = self.ch, self.ctx
+        name = self.pick('target'); real, sm = self.get(name)
+        pk = sm.pk
+        unit = ch.choice('unit', [None] + M.ALL_UNITS) if sm.kind == 'S' else ch.choice('unit', M.ALL_UNITS)
+        dim = 'mol' if unit is None else M.UNIT_DIM[unit]
+        f = 1.0 if unit is None else M.UNIT_FACTOR[unit]
+        def draw_flows(tag):
+            idx = sorted(ch.subset(tag + '.chems', list(range(pk.n)), min_size=0, max_size=min(3, pk.n)))
+            return idx, [self.value(f'{tag}.v{i}') for i in idx]
+        if sm.kind == 'S':
+            new_phase = ch.choice('phase', [None] + list(M.ALL_PHASES))
+            idx, vals = draw_flows('f')
+            spec = {(new_phase or sm.ix.ph.label): (idx, vals)}
+            labels_after = None
+        else:
+            keys = ch.subset('flow.phases', list(M.ALL_PHASES), min_size=0, max_size=3)
+            given = ch.bool('phases.given')
+            spec = {q: draw_flows(f'f.{q}') for q in keys}
+            spec = {q: iv for q, iv in spec.items() if iv[0]}       # a phase keyword needs at least one (ID, value) pair
+            keys = list(spec)
+            if given:
+                extra = ch.subset('phases.extra', list(M.ALL_PHASES))
+                target = M.sort_phases(keys + extra)
+                if len(target) < 2:
+                    target = M.sort_phases(target + ['l', 'g'])
+            else:
+                target = M.sort_phases(keys + ['l', 'g'])
+            labels_after = target
+        positive = any(v for idx, vals in spec.values() for v in vals)
+        total = ch.logfloat('total', -2, 4) if (positive and ch.bool('total.given')) else None
+        kw = {}
+        if sm.kind == 'S':
+            (q, (idx, vals)), = spec.items()
+            kw = {pk.names[i]: v for i, v in zip(idx, vals)}
+            call = lambda: real.reset_flow(phase=new_phase, units=unit, total_flow=total, **kw)
+            region = f'kind=S,dim={dim},phase={"same" if new_phase in (None, sm.ix.ph.label) else ("family" if fam(new_phase) != fam(sm.ix.ph.label) else "twin")},total={int(total is not None)}'
+        else:
+            kw = {q: [(pk.names[i], v) for i, v in zip(idx, vals)] for q, (idx, vals) in spec.items()}
+            call = lambda: real.reset_flow(total_flow=total, units=unit, phases=(tuple(target) if given else None), **kw)
+            region = f'kind=M,dim={dim},phases={"given" if given else "default"},changed={int(labels_after != sm.labels())},total={int(total is not None)}'
+        ctx.call('op.reset_flow', call, region=region)
+        ctx.cell('op:reset_flow'); ctx.cell('reset_flow:kind=' + sm.kind); ctx.cell('reset_flow:dim=' + dim)
+        # model: empty in place, then the new phase(s), then the flows converted at the new conditions, then the total
+        for r in sm.rows(): r[:] = 0.0
+        if sm.kind == 'S':
+            if new_phase: sm.ix.ph.label = new_phase
+        elif labels_after != sm.labels():
+            sm.ix = M.Ix(sm.ix.pkg, 'M', labels_after, M.DataCell([np.zeros(pk.n) for _ in labels_after]))
+            sm.subs.relink(sm); self.pc[name] = PC()
+        for q, (idx, vals) in spec.items():
+            row = sm.row_of(q)
+            for i, v in zip(idx, vals):
+                row[i] = sm.to_mol(dim, q, i, v / f) if v else 0.0
+            if dim == 'vol' and sm.kind == 'S': self.touch(sm, [i for i, v in zip(idx, vals) if v])
+        if dim == 'mass': sm.ix.cache.mass = True
+        if dim == 'vol' and sm.kind == 'M': self.touch(sm, [])
+        scale = 1.0
+        if total is not None:
+            cur = 0.0
+            for q, r in zip(sm.labels(), sm.rows()):
+                for i, x in enumerate(r):
+                    if x: cur += x * (1.0 if dim == 'mol' else (pk.MW[i] if dim == 'mass' else M.Vref(pk, i, fam(q), sm.tc.T, sm.tc.P)))
+            scale = (total / f) / cur
+            for r in sm.rows(): r *= scale
+        # read back what was written, in the unit it was written in
+        u = unit or 'kmol/hr'
+        for q, (idx, vals) in spec.items():
+            if not idx: continue
+            IDs = tuple(pk.names[i] for i in idx)
+            got = arr(real.get_flow(u, IDs if sm.kind == 'S' else (q, IDs)))
+            want = np.array(vals, float) * scale
+            den = np.maximum(np.abs(got), np.abs(want))
+            rel = np.where(den > 0, np.abs(got - want) / np.where(den > 0, den, 1), 0.0)
+            if rel.size and rel.max() > RT:
+                ctx.fail(f'roundtrip.{dim}|kind={sm.kind},trig={self.trig(name, sm, dim)},reset_flow|mismatch',
+                         f'{name}.reset_flow({region}): wrote {want.tolist()} {u} for {IDs} in {q!r}, reads back {got.tolist()}')
+        if total is not None:
+            got = real.get_total_flow(u)
+            if abs(got - total) > RT * max(abs(got), abs(total)):
+                ctx.fail(f'roundtrip.F_{dim}|kind={sm.kind},trig={self.trig(name, sm, "F_" + dim)},reset_flow|mismatch',
+                         f'{name}.reset_flow total {total!r} {u} reads back {got!r}')
+        # everything that was not named is zero
+        if sm.kind == 'M' and list(real.phases) != sm.labels():
+            ctx.fail(f'op.reset_flow|{region}|phases', f'{name}: phases {real.phases}, expected {sm.labels()}')
+        self.cmp('view.mol', name, sm, 'mol', vs.dense(real), sm.dense(), what='imol after reset_flow')
+        self.mark(sm, 'reset_flow')
+
     def op_sub(self, step):
         ch, ctx = self.ch, self.ctx
         multis = [n for n in ('a', 'b') if n in self.names() and self.get(n)[1].kind == 'M']
@@ -984,7 +1082,7 @@ class Run:
 
 OPS = [('write', 8), ('total', 3), ('T', 2), ('P', 2), ('phase', 3), ('phases', 3), ('link', 3), ('unlink', 2),
        ('copy_like', 2), ('reset_thermo', 1), ('proxy', 2), ('empty', 1), ('dim_error', 1), ('read_key', 2), ('sub', 1),
-       ('get_property', 2), ('assign', 3)]
+       ('get_property', 2), ('assign', 3), ('reset_flow', 3)]
 OP_LIST = [n for n, w in OPS for _ in range(w)]
 STRUCT = {'T', 'P', 'phase', 'phases', 'link', 'unlink', 'copy_like', 'reset_thermo', 'proxy'}
 
